@@ -3706,6 +3706,19 @@ impl<'a, const HAS_CR: bool> Parser<'a, HAS_CR> {
                             }
                         }
                     }
+                    b'&' | b'!' if at_token_start => {
+                        // Node properties (`&a 'x'`, `!t "x"`) precede the token: skip the
+                        // name and stay at the token's start, so that a quoted scalar after
+                        // them is still skipped as one (`[[&a ']:']]`).
+                        while i < self.input.len()
+                            && !matches!(
+                                self.input[i],
+                                b' ' | b'\t' | b'\n' | b'\r' | b',' | b'[' | b']' | b'{' | b'}'
+                            )
+                        {
+                            i += 1;
+                        }
+                    }
                     c if c == open => {
                         depth += 1;
                         i += 1;
